@@ -1,5 +1,6 @@
 import NomtModel.Api.Shards
 import NomtModel.Api.Exec
+import NomtModel.Store.ConstantsTree
 /-!
 # C13 — Results do not depend on parallelism, caching or tuning options
 
@@ -29,5 +30,19 @@ theorem T13_1b_owner_in_range (n a : Nat) (hn1 : 1 ≤ n) (hn : n ≤ 64) (ha : 
   exact (h.1.1 a ha).1.1
 
 example : region 7 0 = (0, 10) ∧ region 7 1 = (10, 9) ∧ indexFor 7 9 = 0 ∧ indexFor 7 10 = 1 := by decide
+
+/-- T13.const the table of T13.1 is the table of the code: the root page has
+`NUM_CHILDREN = 2^DEPTH = 64` children (`Shards.numChildren`), and `MAX_COMMIT_CONCURRENCY = 64`, so
+every admissible worker count lies in the range `1 … 64` that T13.1 covers (values extracted from
+`core/src/page.rs`, `core/src/page_id.rs`, `nomt/src/lib.rs` on every run) -/
+theorem T13_const_children :
+    numChildren = Gen.NUM_CHILDREN ∧ Gen.NUM_CHILDREN = 2 ^ Gen.DEPTH ∧ Gen.NUM_CHILDREN = 64 ∧
+    Gen.MAX_COMMIT_CONCURRENCY = 64 ∧
+    ∀ n, 1 ≤ n → n ≤ Gen.MAX_COMMIT_CONCURRENCY → okFor n = true := by
+  have c := Store.ConstantsCheck.num_children
+  refine ⟨Store.ConstantsCheck.shards_num_children, c.1, c.2.1, c.2.2.2.1, ?_⟩
+  intro n h1 h2
+  rw [c.2.2.2.1] at h2
+  exact T13_1_shards_partition n h1 h2
 
 end Nomt.C13
